@@ -277,16 +277,34 @@ Error CodeHolder::reinit() noexcept {
   CodeHolder_reset_sections_and_containers(this, ResetPolicy::kSoft);
 
   // Create a default section and insert it to the `_sections` array.
-  (void)CodeHolder_init_section_storage(this);
+  if (ASMJIT_UNLIKELY(CodeHolder_init_section_storage(this) != Error::kOk)) {
+    // There is no memory for the .text section - the only consistent state is a fully reset CodeHolder.
+    CodeHolder_detach_emitters(this);
+    CodeHolder_reset_env_and_attached_logger_and_eh(this);
+    _arena.reset();
+    return make_error(Error::kOutOfMemory);
+  }
   CodeHolder_add_text_section(this);
 
+  Error err = Error::kOk;
   BaseEmitter* emitter = _attached_first;
+
   while (emitter) {
-    emitter->on_reinit(*this);
-    emitter = emitter->_attached_next;
+    BaseEmitter* next = emitter->_attached_next;
+    Error emitter_err = emitter->on_reinit(*this);
+
+    // An emitter that failed to reinitialize cannot stay attached - detach it and propagate the first error.
+    if (ASMJIT_UNLIKELY(emitter_err != Error::kOk)) {
+      (void)detach(emitter);
+      if (err == Error::kOk) {
+        err = emitter_err;
+      }
+    }
+
+    emitter = next;
   }
 
-  return Error::kOk;
+  return err;
 }
 
 void CodeHolder::reset(ResetPolicy reset_policy) noexcept {
